@@ -177,3 +177,28 @@ PROPS["C05"] = dict(
     assumptions=COMMON_ASSUMPTIONS + ["names/infos use printable characters only (non-printable ones are documented to be dropped)",
                                       "states already ill-formed because of a known C02 finding are skipped"],
 )
+
+
+def _c06(tier):
+    st = []
+    for im in ("0", "1"):
+        for stage in ("deviations", "tokens", "diff"):
+            st.append(simple("%s-i%s" % (stage, im), "c06_xml_inputs", parts=16, deadline={"quick": 150, "thorough": 3000},
+                             args={"quick": ["--stage", stage], "thorough": ["--stage", stage]}, env={"HWLOC_LIBXML_IMPORT": im, "HWLOC_LIBXML_EXPORT": "0", "ASAN_OPTIONS": "max_allocation_size_mb=512"}))
+    return st
+
+
+PROPS["C06"] = dict(
+    level_text="Exhaustive within bounds: every single deviation of the stated alphabet at every applicable site of every base "
+               "document (deviation bound 1), every document of <= 4 tokens of an XML token alphabet, and the same for diff XML, is "
+               "given to the real loader of both backends as an exact-size heap copy under ASan/UBSan with assertion, signal and watchdog "
+               "capture; successful loads are checked by wf.c, the read-only battery, dup and destroy, failed ones by reconfigure-and-load.",
+    technique="deviation-bounded exhaustive input enumeration on the real XML loaders (both backends) with sanitizer + well-formedness oracles",
+    design_ref="DESIGN.md 5 (C06)",
+    stages=_c06,
+    explanation="Base documents: fixtures, their v2-format exports, a hand-written hwloc-2.0 document (anonymous latency distances, v2 OS-device types, "
+                "Die-as-Group), corpus files below 8 KB (30 KB thorough).",
+    bounds={"quick": "deviation bound 1 on half of the fixtures + io/annot + small corpus; token documents <= 4 tokens", "thorough": "all fixtures and their v2 exports, corpus < 30 KB; token documents <= 5 tokens"},
+    assumptions=COMMON_ASSUMPTIONS + ["long unstructured byte strings are outside any bounded enumeration: only the token scope, the truncations and single deviations are covered",
+                                      "single allocations above 512 MB fail (ASan allocator limit) instead of being served"],
+)
